@@ -20,9 +20,14 @@
 namespace vf {
 static std::vector<Rat> g_divs;
 static bool g_divzero = false;
+#ifndef VF_QL_POISON
+#define VF_QL_POISON 7777777
+#endif
 struct QL {
     Rat r;
-    QL() {}
+    // a default-constructed scalar is POISON, not zero: Fastor leaves `Tensor<T,...> x;` uninitialised for the real
+    // types, so code that relies on a zero must write it (a missing zero fill shows up as poison in the result)
+    QL() : r(Rat::make(VF_QL_POISON, 1)) {}
     QL(int v) : r(v) {}
     QL(long v) : r(v) {}
     QL(long long v) : r(v) {}
@@ -73,6 +78,7 @@ inline vf::QL conj(const vf::QL& a) { return a; }
 
 #include <Fastor/Fastor.h>
 namespace Fastor { template<> struct is_numeric<vf::QL> { static constexpr bool value = true; }; }
+#include "inverse_calls.h"
 
 namespace c10 {
 using namespace Fastor;
@@ -101,22 +107,7 @@ static sigjmp_buf g_jmp;
 static volatile sig_atomic_t g_armed = 0;
 static void on_abort(int) { if (g_armed) { g_armed = 0; siglongjmp(g_jmp, 1); } }
 
-enum { SIMPLE = 0, SIMPLEPIV = 1, SIMPLELU = 2, SIMPLELUPIV = 3, BLOCKLU = 4, BLOCKLUPIV = 5, UT = 6, LUT = 7 };
-static inline int strat_id(const std::string& s) {
-    static const char* names[] = {"simple", "simplepiv", "simplelu", "simplelupiv", "blocklu", "blocklupiv", "ut", "lut"};
-    for (int i = 0; i < 8; ++i) if (s == names[i]) return i;
-    return -1;
-}
-
-template<int S, size_t n> struct Call;
-template<size_t n> struct Call<SIMPLE, n> { static Tensor<QL,n,n> go(const Tensor<QL,n,n>& A) { return inverse<InvCompType::SimpleInv>(A); } };
-template<size_t n> struct Call<SIMPLEPIV, n> { static Tensor<QL,n,n> go(const Tensor<QL,n,n>& A) { return inverse<InvCompType::SimpleInvPiv>(A); } };
-template<size_t n> struct Call<SIMPLELU, n> { static Tensor<QL,n,n> go(const Tensor<QL,n,n>& A) { return inverse<InvCompType::SimpleLU>(A); } };
-template<size_t n> struct Call<SIMPLELUPIV, n> { static Tensor<QL,n,n> go(const Tensor<QL,n,n>& A) { return inverse<InvCompType::SimpleLUPiv>(A); } };
-template<size_t n> struct Call<BLOCKLU, n> { static Tensor<QL,n,n> go(const Tensor<QL,n,n>& A) { return inverse<InvCompType::BlockLU>(A); } };
-template<size_t n> struct Call<BLOCKLUPIV, n> { static Tensor<QL,n,n> go(const Tensor<QL,n,n>& A) { return inverse<InvCompType::BlockLUPiv>(A); } };
-template<size_t n> struct Call<UT, n> { static Tensor<QL,n,n> go(const Tensor<QL,n,n>& A) { return tinverse<InvCompType::SimpleInv, UpLoType::Upper>(A); } };
-template<size_t n> struct Call<LUT, n> { static Tensor<QL,n,n> go(const Tensor<QL,n,n>& A) { return tinverse<InvCompType::SimpleInv, UpLoType::UniLower>(A); } };
+using namespace icall;
 
 // plain-loop oracle: X*A == I and A*X == I exactly
 static inline std::string oracle(size_t n, const QL* A, const QL* X) {
@@ -137,7 +128,7 @@ static std::string run_case(const std::vector<long>& a) {
     Tensor<QL,n,n> A;
     for (size_t k = 0; k < n * n; ++k) A.data()[k] = QL((long)a[k]);
     std::string pstr;
-    if (S == SIMPLEPIV || S == SIMPLELUPIV || S == BLOCKLUPIV) {
+    if (is_piv(S)) {
         Tensor<size_t,n> P; pivot_inplace(A, P);
         for (size_t i = 0; i < n; ++i) pstr += (i ? "," : "") + std::to_string(P(i));
     }
@@ -145,7 +136,7 @@ static std::string run_case(const std::vector<long>& a) {
     std::string res;
     g_armed = 1;
     if (sigsetjmp(g_jmp, 1) == 0) {
-        Tensor<QL,n,n> X = Call<S, n>::go(A);
+        Tensor<QL,n,n> X = Call<QL, S, n>::go(A);
         g_armed = 0;
         bool def = !vf::g_divzero;
         std::vector<Rat> xs; for (size_t k = 0; k < n * n; ++k) xs.push_back(X.data()[k].r);
@@ -188,10 +179,36 @@ static std::string run_batched(const std::vector<long>& a) {
     return res;
 }
 
+// batched inverse of a rank-4 tensor Tensor<QL,N1,N2,J,J> (N1*N2 matrices)
+template<size_t N1, size_t N2, size_t J>
+static std::string run_batched4(const std::vector<long>& a) {
+    vf::ratpool.reset();
+    const size_t NB = N1 * N2;
+    Tensor<QL,N1,N2,J,J> A;
+    for (size_t k = 0; k < NB * J * J; ++k) A.data()[k] = QL((long)a[k]);
+    vf::g_divs.clear(); vf::g_divzero = false;
+    std::string res;
+    g_armed = 1;
+    if (sigsetjmp(g_jmp, 1) == 0) {
+        Tensor<QL,N1,N2,J,J> X = inverse(A);
+        g_armed = 0;
+        bool def = !vf::g_divzero;
+        std::vector<Rat> xs; for (size_t k = 0; k < NB * J * J; ++k) xs.push_back(X.data()[k].r);
+        res = std::string("DEF=") + (def ? "1" : "0") + " X=" + digest_rats(xs.begin(), xs.end())
+            + " DIVS=" + digest_rats(vf::g_divs.begin(), vf::g_divs.end());
+        std::string o = "ok";
+        if (def) for (size_t b = 0; b < NB; ++b) { std::string ob = oracle(J, A.data() + b*J*J, X.data() + b*J*J); if (ob != "ok") o = ob; }
+        res += " ORACLE=" + (def ? o : std::string("undefined")) + (pool_in_range() ? " ERR=none" : " ERR=overflow");
+    } else res = "DEF=? ERR=overflow";
+    return res;
+}
+
 typedef std::string (*runner_t)(const std::vector<long>&);
 static std::map<std::string, runner_t> g_runners;
 #define REG_INV(S, N) c10::g_runners[std::string(#S) + "/" + std::to_string(N)] = &c10::run_case<c10::S, N>
 #define REG_BATCH(NB, J) c10::g_runners["batched/" + std::to_string(NB) + "/" + std::to_string(J)] = &c10::run_batched<NB, J>
+// rank 4: registered under the same key as the rank-3 batch with NB = N1*N2 (the model does not depend on the rank)
+#define REG_BATCH4(N1, N2, J) c10::g_runners["batched4/" + std::to_string((N1)*(N2)) + "/" + std::to_string(J)] = &c10::run_batched4<N1, N2, J>
 
 static inline std::string upper(std::string s) { for (auto& c : s) c = (char)std::toupper(c); return s; }
 
@@ -210,16 +227,24 @@ static int run_file(const char* path) {
             else if (tok.rfind("nb=", 0) == 0) nb = std::stoul(tok.substr(3));
             else if (tok.rfind("a=", 0) == 0) astr = tok.substr(2);
         }
-        std::string key = strat == "batched" ? "batched/" + std::to_string(nb) + "/" + std::to_string(n)
-                                             : upper(strat) + "/" + std::to_string(n);
-        auto it = g_runners.find(key);
-        if (it == g_runners.end()) continue;
         std::vector<long> a; { std::istringstream as(astr); std::string t; while (std::getline(as, t, ',')) a.push_back(std::stol(t)); }
         size_t want = strat == "batched" ? nb * n * n : n * n;
-        if (a.size() != want) { std::printf("%s | ERR=badcase\n", line.c_str()); continue; }
-        std::string res = it->second(a);
-        std::printf("%s | %s\n", line.c_str(), res.c_str());
-        std::fflush(stdout);
+        std::vector<std::pair<std::string, std::string>> keys;   // (registry key, variant tag)
+        if (strat == "batched") {
+            keys.push_back({"batched/" + std::to_string(nb) + "/" + std::to_string(n), "rank3"});
+            keys.push_back({"batched4/" + std::to_string(nb) + "/" + std::to_string(n), "rank4"});
+        } else {
+            int b = variant_id(strat);
+            for (int v = 0; v < NVAR; ++v) if (base_of[v] == b) keys.push_back({upper(names[v]) + "/" + std::to_string(n), names[v]});
+        }
+        for (auto& kk : keys) {
+            auto it = g_runners.find(kk.first);
+            if (it == g_runners.end()) continue;
+            if (a.size() != want) { std::printf("%s via=%s | ERR=badcase\n", line.c_str(), kk.second.c_str()); continue; }
+            std::string res = it->second(a);
+            std::printf("%s via=%s | %s\n", line.c_str(), kk.second.c_str(), res.c_str());
+            std::fflush(stdout);
+        }
     }
     return 0;
 }
